@@ -403,11 +403,14 @@ impl Encoder {
                     }
                 });
 
-                self.bit_fields.push(BitField {
-                    value: quote!((#array_size) as #field_type),
-                    field_type,
-                    shift,
-                });
+                // `x as T << n` does not parse (`<` is read as the start of
+                // generic arguments): parenthesize casts that will be shifted.
+                let value = if shift > 0 {
+                    quote!(((#array_size) as #field_type))
+                } else {
+                    quote!((#array_size) as #field_type)
+                };
+                self.bit_fields.push(BitField { value, field_type, shift });
             }
             ast::FieldDesc::ElementSize { field_id, width, .. } => {
                 let field_name = field_id.to_ident();
@@ -464,11 +467,14 @@ impl Encoder {
                         }
                     });
                 }
-                self.bit_fields.push(BitField {
-                    value: quote!(self.#field_name.len() as #field_type),
-                    field_type,
-                    shift,
-                });
+                // `x as T << n` does not parse (`<` is read as the start of
+                // generic arguments): parenthesize casts that will be shifted.
+                let value = if shift > 0 {
+                    quote!((self.#field_name.len() as #field_type))
+                } else {
+                    quote!(self.#field_name.len() as #field_type)
+                };
+                self.bit_fields.push(BitField { value, field_type, shift });
             }
             _ => todo!("{field:?}"),
         }
